@@ -17,7 +17,7 @@ THEOREMS = [
     'Pfst.C05.mode_total', 'Pfst.C05.modes_match_spec', 'Pfst.C05.class_modes_match_spec', 'Pfst.C05.wrappers_sound',
     'Pfst.C05.wrappers_observed', 'Pfst.C05.b2c_c2b_boundary', 'Pfst.C05.fixSeq_trailing', 'Pfst.C05.fixSeq_no_trailing',
     'Pfst.C05.trailing_sep_spec', 'Pfst.C05.trailing_comma_spec', 'Pfst.C05.trailing_semicolon_spec',
-    'Pfst.C05.trailing_sep_same_language', 'Pfst.C05.trailing_sep_blanks',
+    'Pfst.C05.trailing_sep_same_language', 'Pfst.C05.trailing_sep_blanks', 'Pfst.C05.verify_comments_irrelevant',
 ]
 RULE = ('(1) whole programs (snippets, generated, layout-mutated, commented, multi-byte, stdlib chunks) through exec/stmts/strict/'
         'all/eval/single and FST(src): source unchanged, tree == ast.parse with positions; (2) for every extended mode, fragments '
@@ -601,7 +601,7 @@ def generated_malformed(rng, n_random):
     mids = ['', '+', ',', '=', ' if ', ':', ' as c,', '->', ' for x in ', '.', ' and ', ' or ', '|', ':=', ' in ', '*']
     pres = ['', 'a', 'a,', 'a,b', 'a=1', '*a', 'a as b', 'x for x in y', 'a:b', '1', 'é', '"é"', 'T: int', '@a', 'if a', 'for a in b']
     sufs = ['', 'b', '*b', 'b,', 'b=2', 'ü', ' b for b in c']
-    seps = ['', ' ', '\n', ' # c\n', ' \\\n', '\n\n']
+    seps = ['', ' ', '\n', ' # c\n', ' \\\n', '\n\n', '\n# x, y\n', ' # 2) second, optional\n', '\n# ]\n', '\n# "\n# (\n']
     for c, o in pairs:
         for mid in mids:
             lab = f'escape{c}{mid.strip()}{o}'
@@ -610,6 +610,9 @@ def generated_malformed(rng, n_random):
             out.append((lab, f'{c}{mid}{o}b=2'))
             out.append((lab, f'a=1{c}{mid}{o}b=2'))
             out.append((lab, f'a{c}{mid}{o}*b'))
+            for cm in ('# x, y', '# 2) second, optional', '# ], [', '# "', '# ('):      # code-like comment lines around a real escape
+                out.append((lab, f'a\n{cm}\n{c}{mid}{o}b'))
+                out.append((lab, f'a  {cm}\n{c}{mid}{o}\n{cm}\nb'))
     for _ in range(n_random):
         c, o = rng.choice(pairs)
         mid = rng.choice(mids)
@@ -889,6 +892,27 @@ def correspondence(ctx):
         except Exception as e:
             r = 'exc:' + type(e).__name__
         cases.append({'f': 'C05.verify', 'lines': lines, 'a': a, 'delims': delims})
+        impl.append(r)
+    # structured: an element, comment lines with code-like content, then the separator / an escape on a later line
+    for _ in range(400 if q else 4000):
+        dl = rng.choice(['()', '()', '[]'])
+        o_, c_ = dl
+        first = rng.choice(['a', '"é"', o_ + 'a' + c_, 'a' + c_, o_ + 'a'])
+        tail1 = rng.choice(['', ' ', '  ' + rng.choice(F.CODE_COMMENTS), ',', c_, ' ' + o_])
+        mids = [rng.choice([' ' * rng.randint(0, 3) + rng.choice(F.CODE_COMMENTS), '', '  ', c_ + ',' + o_, c_, o_ + 'x' + c_ + '  ' + rng.choice(F.CODE_COMMENTS)])
+                for _ in range(rng.randint(0, 3))]
+        last = rng.choice([', b', c_ + ',' + o_ + 'b', ',', 'b', rng.choice(F.CODE_COMMENTS) + ', b'])
+        lines = [first + tail1] + mids + [last]
+        a = [0, 0, 0, len(first.encode()), len(lines) - 1 - rng.choice([0, 0, 0, 1]) if len(lines) > 1 else 0]
+        a[4] = max(a[4], 0)
+        try:
+            px._verify_no_close_delimiters(lines, *a, dl)
+            r = True
+        except SyntaxError:
+            r = False
+        except Exception as e:
+            r = 'exc:' + type(e).__name__
+        cases.append({'f': 'C05.verify', 'lines': lines, 'a': a, 'delims': dl})
         impl.append(r)
     ctx.compare('_verify_no_close_delimiters vs Pfst.ParseWrap.verifyNoClose', cases, impl,
                 nontrivial=lambda c, o: o is False or any(not l.isascii() for l in c['lines']))
